@@ -111,7 +111,7 @@ def run(ck):
         n = len(g["vals"])
         groups.append(pack_group(g["vals"], g["C"], rng, [rng.sample(range(n), n) for _ in range(2)], cover=True))
     # agreement beyond oracle size: 11-16 items, 2-5 bins, families on which the searches terminate quickly
-    na = 24 if q else 400
+    na = 24 if q else 1200
     for i in range(na):
         k = rng.choice([2, 2, 3, 3, 4, 5])
         n = rng.randint(11, 16 if k <= 3 else (13 if k == 4 else 12))
